@@ -123,7 +123,7 @@ def run_case(rec, case):
         else:
             argv = ["image", "update", "--input-file", src, "--storage-output-file", st, "--dfu-partition-output-file",
                     pt, "--update-candidate-info-address", hex(uci), "--dfu-partition-address", str(dfu),
-                    "--dfu-max-caches", str(caches)]
+                    "--dfu-max-caches", str(caches) if r.random() < 0.6 else "0" * r.choice([1, 2]) + str(caches)]
             if route == "cli":
                 rc, e = drive.cli_inproc(argv)
                 if rc != 0:
